@@ -80,6 +80,14 @@ class FS:
             raise FileNotFoundError(path)
         return {TP.stat.ST_MTIME: f["mtime"] if not isinstance(f["mtime"], z3.ExprRef) else SymInt(f["mtime"])}
 
+    def lstat(self, path):
+        """the link's own mtime when the path is a symbolic link, else that of the file"""
+        f = self.files.get(path)
+        if f is not None and f.get("link_mtime") is not None and self.p.fork(f["is_link"]):
+            self.step("lstat")
+            return {TP.stat.ST_MTIME: SymInt(f["link_mtime"])}
+        return self.stat(path)
+
     def makedirs(self, path, mode=0o777, exist_ok=False):
         i = self.step("makedirs")
         self.dirs.add(path)
@@ -257,7 +265,7 @@ def install(fs):
     ospath = types.SimpleNamespace(exists=fs.exists, dirname=lambda p: p.rsplit("/", 1)[0] or "/", join=lambda *a: "/".join(a), sep="/")
     osm = types.SimpleNamespace(path=ospath, stat=fs.stat, makedirs=fs.makedirs, write=fs.write, close=fs.close, fsync=fs.fsync,
                                 rename=fs.rename, replace=fs.rename, remove=fs.remove, unlink=fs.remove, fdopen=fs.fdopen, sep="/",
-                                lstat=fs.stat)
+                                lstat=fs.lstat)
     TP.os = osm
     UT.os = osm
     TP.tempfile = types.SimpleNamespace(mkstemp=fs.mkstemp)
@@ -315,7 +323,10 @@ def h_decide(p):
     fs.now = now
     install(fs)
     data = types.SimpleNamespace(version=sv)
-    fs.files[SRC] = dict(kind="source", data=data, mtime=sm, length=1, total=1)
+    # the source path may be a symbolic link whose own mtime is unrelated to the content's (e.g. an atomically swapped ..data link)
+    is_link, lm = B("source_is_symlink"), I("link_mtime")
+    p.assume(z3.And(lm >= 0, lm <= now))
+    fs.files[SRC] = dict(kind="source", data=data, mtime=sm, length=1, total=1, is_link=is_link, link_mtime=lm)
     has = p.fork(m_exists)
     if has:
         fs.files[PATH] = dict(kind="module", version=mv, magic=magic, length=N, total=N, mtime=mm, original=True)
@@ -325,7 +336,7 @@ def h_decide(p):
     if uw:
         t.module_writer.fs = fs
     mod = t._compile_from_file(PATH, SRC)
-    return dict(mod=mod, fs=fs, has=has, calls=calls, uw=uw, sym=dict(mm=mm, sm=sm, mv=mv, sv=sv, magic_ok=magic_ok, magic=magic, now=now))
+    return dict(mod=mod, fs=fs, has=has, calls=calls, uw=uw, sym=dict(mm=mm, sm=sm, mv=mv, sv=sv, magic_ok=magic_ok, magic=magic, now=now, is_link=is_link, lm=lm))
 
 
 def on_decide(p, r, exc, acc):
@@ -341,7 +352,8 @@ def on_decide(p, r, exc, acc):
 
     def desc(mod):
         ev = lambda t: str(mod.eval(t, model_completion=True))
-        return dict(module_exists=r["has"], module_mtime=ev(y["mm"]), source_mtime=ev(y["sm"]), magic_matches=ev(y["magic_ok"]), module_magic=ev(y["magic"]), current_magic=CG.MAGIC_NUMBER,
+        return dict(source_is_symlink=ev(y["is_link"]), link_mtime=ev(y["lm"]),
+                    module_exists=r["has"], module_mtime=ev(y["mm"]), source_mtime=ev(y["sm"]), magic_matches=ev(y["magic_ok"]), module_magic=ev(y["magic"]), current_magic=CG.MAGIC_NUMBER,
                     module_generated_from_version=ev(y["mv"]), source_version=ev(y["sv"]), module_writer=r["uw"], rewritten=rewritten,
                     writer_calls=len(r["calls"]))
 
@@ -620,6 +632,10 @@ try:
             os.utime(mp, (now - 1000 + int(CASE["module_mtime"]), now - 1000 + int(CASE["module_mtime"])))
             before = open(mp, "rb").read()
         os.utime(src, (now - 1000 + int(CASE["source_mtime"]), now - 1000 + int(CASE["source_mtime"])))
+        if CASE.get("source_is_symlink") == "True":
+            # the template path is a symbolic link to the real file; the link has an mtime of its own
+            os.rename(src, src + ".target"); os.symlink(src + ".target", src)
+            os.utime(src, (now - 1000 + int(CASE["link_mtime"]), now - 1000 + int(CASE["link_mtime"])), follow_symlinks=False)
         del calls[:]
         t = Template(filename=src, module_directory=mods, uri="u.html", module_writer=writer)
         mp = os.path.join(mods, "u.html.py")
@@ -699,6 +715,9 @@ if target:
     orig = getattr(mod_, name_)
     os_write = os.write
     def dying(*a, **k):
+        if where[0] == "fault":
+            setattr(mod_, name_, orig)          # the fault is transient: this one call fails, the process lives on
+            raise OSError(28, "No space left on device (injected)")
         if where[0] == "before": os._exit(9)
         if where[0] == "during":
             os_write(a[0], a[1][: len(a[1]) // 2]); os._exit(9)
